@@ -5,6 +5,10 @@ Only PROPOSES inputs: the verdict on every accepted encoding is the Lean monitor
 from gen_c01 import FIXED, CLASS
 
 M64 = (1 << 64) - 1
+# instructions whose database entry lists BOTH directions with a register r/m (the only ones `modmr` / `modrm` may pick between)
+MODMR_OK = {"adc", "add", "and", "cmp", "mov", "or", "sbb", "sub", "xor", "xchg", "movaps", "movapd", "movups", "movupd", "movdqa", "movdqu",
+            "vmovaps", "vmovapd", "vmovups", "vmovupd", "vmovdqa", "vmovdqu", "vmovdqa32", "vmovdqa64", "vmovdqu8", "vmovdqu16",
+            "vmovdqu32", "vmovdqu64"}
 VEC_SIZE = {"xmm": 16, "ymm": 32, "zmm": 64}
 GP_KIND_BY_MODE = {64: "gpq", 32: "gpd"}
 BASE_ADDR = 0x0000000000400000
@@ -170,7 +174,10 @@ def instantiate(f, roles, mode, rng, want_mem, tier_rich=False):
         if o["imm"]:
             if o["implicit"]:
                 continue
-            ops.append("I:" + hx(pick(rng, imm_values(o, rng))))
+            vals = imm_values(o, rng)
+            if f["name"] in ("ret", "retf"):
+                vals = [v for v in vals if v != 0]      # `ret 0` is emitted as `ret` (same meaning, other form)
+            ops.append("I:" + hx(pick(rng, vals)))
             continue
         if o["rel"]:
             k = rng.random()
@@ -265,7 +272,7 @@ def instantiate(f, roles, mode, rng, want_mem, tier_rich=False):
         opts.append("vex3")
     elif r < 0.14 and f["prefix"] in ("VEX", "EVEX"):
         opts.append("evex" if f["prefix"] == "EVEX" else "vex")
-    elif r < 0.18:
+    elif r < 0.18 and f["name"] in MODMR_OK:
         opts.append(pick(rng, ["modmr", "modrm"]))
     elif r < 0.22 and any(o["rel"] for o in f["operands"]):
         opts.append(pick(rng, ["short", "long"]))
